@@ -417,6 +417,9 @@ func (f *Frame) enterLoop(li *loopInfo, cur *State, rc *runCtx) {
 			if !ok {
 				continue
 			}
+			if u.eng.LockMode && strings.HasPrefix(k.key, "F:sync.RWMutex.") {
+				continue // kept as a whole by havocAll
+			}
 			nh, ok := done[k.key]
 			if !ok {
 				nh = u.heapHavoc(cur, k.key, k.sort)
